@@ -59,7 +59,8 @@ Print Assumptions C04_encode_vframe.
 
 (* [unfragmented]: the frame's fragment bit is clear.  connection.reader calls packageParse.parse, i.e. unpack followed
    by the sub-package bookkeeping (Model/Subpkg.v, C05); for unfragmented frames parse delivers exactly unpack's
-   messages (Props/C05.v C05_unfragmented_identity: the bookkeeping is the identity on messages whose package total is
+   messages (Props/C05.v C05_parse_unfragmented: parse on a chunk whose messages all have package total 0 returns exactly
+   unpack's messages, history and error with the table untouched; C05_unfragmented_identity: the bookkeeping is the identity on messages whose package total is
    0; C05_unfragmented_decoded: a decoded frame with the fragment bit clear has total 0), which is what [reader_run]
    dispatches.  The hypothesis restricts the two
    reader-level statements to the traffic for which [reader_run] IS the loop of the code (and which the harness's op
